@@ -115,60 +115,93 @@ def check(chk: Check) -> None:
     # functools.lru_cache / cache compare keys with == and hash, under which 1, 1.0 and 1E+0 (or 20000 and 20000.00) are the
     # same key although their texts differ.  A memoised function whose result is built from the *text* of an argument
     # therefore returns what an earlier call with an equal, differently written number left in the cache.
+    def audit_memo(q_, fi_, memo_text):
+            params = {('param', a.arg) for a in fi_.node.args.args + fi_.node.args.kwonlyargs}
+            textual = []
+
+            def scan(t):
+                t = freeze(t)
+                if isinstance(t, tuple) and t:
+                    if t[0] == 'call' and t[2] in (('ref', 'builtin', 'str'), ('ref', 'builtin', 'repr'), ('ref', 'builtin', 'format')) \
+                            and t[3] and t[3][0] in params:
+                        textual.append(show(t))
+                    if t[0] == 'fstr' and any(x in params or (isinstance(x, tuple) and x[:1] == ('fmt',) and x[1] in params) for x in t[1:]):
+                        textual.append(show(t))
+                    for x in t:
+                        scan(x)
+            for p in SymExec(F, FuncInfo(q_ + '.<undecorated>', fi_.module, ast.FunctionDef(
+                    name=fi_.node.name, args=fi_.node.args, body=fi_.node.body, decorator_list=[], returns=None, type_comment=None,
+                    lineno=fi_.node.lineno, col_offset=0, end_lineno=getattr(fi_.node, 'end_lineno', fi_.node.lineno), end_col_offset=0), cls=fi_.cls)).run():
+                if p.normal:
+                    scan(p.outcome[1])
+                    # the argument object itself inside the result (ValueOp(value), [value], (value, 1)): the cache then hands out
+                    # the object that an earlier, merely equal argument was wrapped in - Decimal('1.0') for a later Decimal('1')
+                    def holds(t):
+                        t = freeze(t)
+                        if t in params:
+                            return True
+                        if isinstance(t, tuple) and t[:1] == ('new',) and len(t) > 2:
+                            return any(holds(fv_) for _fn, fv_ in t[2])
+                        if isinstance(t, tuple) and t[:1] in (('tuple',), ('list',), ('dict',), ('set',)):
+                            return any(holds(x) for x in t[1:])
+                        if isinstance(t, tuple) and t and isinstance(t[0], str) and t[0] not in ('call', 'cmp', 'not', 'binop', 'unop', 'pcall', 'attr', 'sub', 'const', 'ref'):
+                            return False
+                        if isinstance(t, tuple) and (not t or not isinstance(t[0], str)):
+                            return any(holds(x) for x in t)
+                        return False
+                    if holds(p.outcome[1]):
+                        textual.append('the result holds the argument object itself: %s' % show(p.outcome[1])[:80])
+                for e in p.events:
+                    if e.kind == 'call':
+                        scan(tuple(freeze(e.args)))
+                        scan(freeze(e.func))
+                    if e.kind in ('store_sub', 'store_attr'):
+                        scan(freeze(e.value))
+            chk.require(not textual, R1, '%s :: memoised (%s)' % (q_, memo_text), fi_.where,
+                        'the cache is keyed by == / hash, but the result depends on the text of an argument (%s): equal numbers written '
+                        'differently (1 / 1.0, 20000 / 20000.00) share one entry, so a call returns what an earlier call left behind'
+                        % ', '.join(sorted(set(textual))[:2]) if textual else
+                        'memoised function of its arguments; no result depends on how an argument is spelled')
+    MEMO = ('lru_cache', 'cache')
     for q_, fi_ in sorted(F.functions.items()):
         if '.ply' in fi_.module.name or not isinstance(fi_.node, ast.FunctionDef):
             continue
         memo = [d for d in fi_.node.decorator_list
-                if (isinstance(d, ast.Call) and norm(d.func).rsplit('.', 1)[-1] in ('lru_cache', 'cache'))
-                or (not isinstance(d, ast.Call) and norm(d).rsplit('.', 1)[-1] in ('lru_cache', 'cache'))]
-        if not memo:
+                if (isinstance(d, ast.Call) and norm(d.func).rsplit('.', 1)[-1] in MEMO)
+                or (not isinstance(d, ast.Call) and norm(d).rsplit('.', 1)[-1] in MEMO)]
+        if memo:
+            audit_memo(q_, fi_, norm(memo[0]))
+    # the same wrappers applied by hand at module level: NAME = lru_cache(maxsize=...)(f) / cache(f), f a builtin, a lambda or
+    # a function of the package
+    for m_ in F.modules.values():
+        if '.ply' in m_.name:
             continue
-        params = {('param', a.arg) for a in fi_.node.args.args + fi_.node.args.kwonlyargs}
-        textual = []
-
-        def scan(t):
-            t = freeze(t)
-            if isinstance(t, tuple) and t:
-                if t[0] == 'call' and t[2] in (('ref', 'builtin', 'str'), ('ref', 'builtin', 'repr'), ('ref', 'builtin', 'format')) \
-                        and t[3] and t[3][0] in params:
-                    textual.append(show(t))
-                if t[0] == 'fstr' and any(x in params or (isinstance(x, tuple) and x[:1] == ('fmt',) and x[1] in params) for x in t[1:]):
-                    textual.append(show(t))
-                for x in t:
-                    scan(x)
-        for p in SymExec(F, FuncInfo(q_ + '.<undecorated>', fi_.module, ast.FunctionDef(
-                name=fi_.node.name, args=fi_.node.args, body=fi_.node.body, decorator_list=[], returns=None, type_comment=None,
-                lineno=fi_.node.lineno, col_offset=0, end_lineno=getattr(fi_.node, 'end_lineno', fi_.node.lineno), end_col_offset=0), cls=fi_.cls)).run():
-            if p.normal:
-                scan(p.outcome[1])
-                # the argument object itself inside the result (ValueOp(value), [value], (value, 1)): the cache then hands out
-                # the object that an earlier, merely equal argument was wrapped in - Decimal('1.0') for a later Decimal('1')
-                def holds(t):
-                    t = freeze(t)
-                    if t in params:
-                        return True
-                    if isinstance(t, tuple) and t[:1] == ('new',) and len(t) > 2:
-                        return any(holds(fv_) for _fn, fv_ in t[2])
-                    if isinstance(t, tuple) and t[:1] in (('tuple',), ('list',), ('dict',), ('set',)):
-                        return any(holds(x) for x in t[1:])
-                    if isinstance(t, tuple) and t and isinstance(t[0], str) and t[0] not in ('call', 'cmp', 'not', 'binop', 'unop', 'pcall', 'attr', 'sub', 'const', 'ref'):
-                        return False
-                    if isinstance(t, tuple) and (not t or not isinstance(t[0], str)):
-                        return any(holds(x) for x in t)
-                    return False
-                if holds(p.outcome[1]):
-                    textual.append('the result holds the argument object itself: %s' % show(p.outcome[1])[:80])
-            for e in p.events:
-                if e.kind == 'call':
-                    scan(tuple(freeze(e.args)))
-                    scan(freeze(e.func))
-                if e.kind in ('store_sub', 'store_attr'):
-                    scan(freeze(e.value))
-        chk.require(not textual, R1, '%s :: memoised (%s)' % (q_, norm(memo[0])), fi_.where,
-                    'the cache is keyed by == / hash, but the result depends on the text of an argument (%s): equal numbers written '
-                    'differently (1 / 1.0, 20000 / 20000.00) share one entry, so a call returns what an earlier call left behind'
-                    % ', '.join(sorted(set(textual))[:2]) if textual else
-                    'memoised function of its arguments; no result depends on how an argument is spelled')
+        for var_, vals_ in sorted(m_.assigns.items()):
+            for v_ in vals_:
+                if not (isinstance(v_, ast.Call) and len(v_.args) == 1):
+                    continue
+                f_ = v_.func
+                direct = not isinstance(f_, ast.Call) and norm(f_).rsplit('.', 1)[-1] in MEMO
+                factory = isinstance(f_, ast.Call) and norm(f_.func).rsplit('.', 1)[-1] in MEMO
+                if not (direct or factory):
+                    continue
+                inner = v_.args[0]
+                r_ = F.resolve_expr(m_, inner) if not isinstance(inner, ast.Lambda) else ('lambda', None)
+                label = '%s.%s' % (m_.name, var_)
+                where_ = '%s:%d' % (m_.rel, v_.lineno)
+                if r_[0] == 'builtin' and r_[1] in ('str', 'repr', 'format', 'ascii'):
+                    chk.bad(R1, '%s :: memoised (%s)' % (label, norm(v_)), where_,
+                            'the cache is keyed by == / hash, but %s() gives the text of its argument: equal numbers written differently '
+                            '(1 / 1.0, 20000 / 20000.00) share one entry, so a call returns what an earlier call left behind' % r_[1])
+                elif r_[0] == 'fn' and r_[1] in F.functions and isinstance(F.functions[r_[1]].node, ast.FunctionDef):
+                    audit_memo(label, F.functions[r_[1]], norm(v_))
+                elif isinstance(inner, ast.Lambda):
+                    fn_ = ast.FunctionDef(name=var_, args=inner.args, body=[ast.Return(value=inner.body, lineno=inner.lineno, col_offset=0)],
+                                          decorator_list=[], returns=None, type_comment=None, lineno=inner.lineno, col_offset=0,
+                                          end_lineno=getattr(inner, 'end_lineno', inner.lineno), end_col_offset=0)
+                    audit_memo(label, FuncInfo(label, m_, fn_), norm(v_))
+                else:
+                    chk.ok(R1, '%s :: memoised (%s)' % (label, norm(v_)), where_, 'memo around %s' % norm(inner))
     # process-wide state that lives outside the package: the thread's decimal context (precision, rounding, traps) is
     # shared by every later call on every parser
     from . import numeric as N
